@@ -171,6 +171,9 @@ def interrupt_point(cfg: Dict[str, Any]) -> Optional[int]:
         if op in ('q.get', 'sleep') and bars >= 3:       # queue reads and the pause of every trick
             board = (bars - 1) // 2          # 1 seating barrier, then 2 per board
             per_board.setdefault(board, []).append(j)
+        elif op in ('bar.enter', 'bar.wait') and bars >= 2 and cfg.get('interrupt_in_barriers'):
+            # the two barriers of the deal of board bars // 2 (before the wait and inside it)
+            per_board.setdefault(bars // 2, []).append(j)
     cand = per_board.get(cfg['interrupt_board'])
     if not cand:
         return None
@@ -550,6 +553,10 @@ def abort_jobs(r, n: int, prefix: str) -> List[tuple]:
                 cfg['interrupt_frac'] = 0.999999      # main's very last waiting point inside the board
             elif q % 14 == 11:
                 cfg['interrupt_frac'] = 0.0           # ... and its first
+            # the waiting points of the deal (the barriers "ready for deal" / "ready for
+            # cards") count as well; with them the first point of board k is the first
+            # barrier of its deal - the previous board has just been logged
+            cfg['interrupt_in_barriers'] = q % 2 == 0
             if q % 12 == 4:
                 # the operator runs the command line: main() with a board file
                 cfg['via_main'] = {'format': 'json', 'restart': 0}
